@@ -166,6 +166,11 @@ def worker(ctx, shard):
             if t in seen:
                 continue
             seen.add(t)
+            if rng.random() < 0.04:
+                from workloads.timedom import as_sub
+
+                t = as_sub(t)  # an instance of a datetime subclass (as pandas.Timestamp is) is an instant like any other
+                ctx.path("datetime-subclass-instants")
             for u in C.UNITS:
                 i = iv[u]
                 _call(i.floor, t)
